@@ -51,6 +51,8 @@ def clone_case(draw):
                 sel=draw(st.lists(st.integers(0, 30), min_size=1, max_size=4)),
                 custom=draw(st.lists(st.sampled_from([None, 'x', 3, (1, 2)]), min_size=4, max_size=4)),
                 side=draw(st.sampled_from(['copy', 'source'])),
+                # template workflow: the source has a twin (an earlier clone with equal content) and links into it
+                twin=draw(st.one_of(st.just([]), st.just([]), st.lists(st.tuples(st.integers(0, 30), st.integers(0, 30), st.booleans()), min_size=1, max_size=3))),
                 follow=draw(st.lists(st.tuples(st.sampled_from(['name', 'custom', 'remove', 'reparent', 'link', 'unlink', 'estimate', 'sort', 'attr']),
                                                st.integers(0, 30), st.integers(0, 30)), max_size=6)))
 
@@ -97,6 +99,22 @@ def check(case, exclude=True):
         t.spent = [None, 1, 0][k % 3]
         t.milestone = (k % 4 == 0)
     member_ids = {id(t) for t in members}
+    twin = None
+    if case.get('twin') and members:
+        # "phase 2 is a copy of phase 1 and waits for it": links between the source and a WBS of equal content are links to
+        # OUTSIDE tasks like any other (a WBS is told from another by identity, not by content)
+        twin = src.clone()
+        tw = list(twin.tasks)
+        linked = 0
+        for i, j, as_pred in case['twin']:
+            a, b = members[i % len(members)], tw[j % len(tw)]
+            try:
+                (a.predecessors if as_pred else a.successors).append(b)
+                linked += 1
+            except RuntimeError:
+                pass
+        if linked:
+            res.label('links-into-a-twin-WBS')
     mode = case['mode']
     if mode == 'clone-emptied':
         # a WBS that carries attributes but no tasks (any more)
